@@ -2,6 +2,7 @@ package gsync
 
 import (
 	"context"
+	"sync"
 	"sync/atomic"
 	"time"
 
@@ -24,6 +25,9 @@ func init() {
 // SelectableWaitGroup is a wait group that can be used in a select block!
 // you _must_ use the `NewSelectableWaitGroup` function to construct one.
 type SelectableWaitGroup struct {
+	// mu serializes Add so that the counter and the channel change together;
+	// Wait and Count stay lock-free.
+	mu    sync.Mutex
 	count atomic.Int64
 	wChan atomic.Pointer[chan struct{}]
 }
@@ -50,6 +54,8 @@ func (wg *SelectableWaitGroup) Dec() int {
 
 // Add can be used to add or subtract a number from the wait group.
 func (wg *SelectableWaitGroup) Add(delta int) int {
+	wg.mu.Lock()
+	defer wg.mu.Unlock()
 	newV := wg.count.Add(int64(delta))
 	if newV == 0 {
 		oldChan := wg.wChan.Swap(&closedChan)
